@@ -307,6 +307,17 @@ theorem tstepO_vstep {p : Params} {st : Store} {t : Thread}
     · exact ⟨rfl, rfl, hcode, by simp, by simp, by simp, by simp, by simp, hno _ (.inl rfl)⟩
   · exact ⟨rfl, rfl, hcode, by simp, by simp, by simp, by simp, by simp, hno _ (.inl rfl)⟩
 
+theorem tstepP_vstep {p : Params} {st : Store} {t : Thread}
+    (hcode : st.created = true → st.code.ActivationExpiresAt = p.expAt) (ho : OInv t) :
+    VStep p st t (tstepP st t).1 (tstepP st t).2 := by
+  unfold tstepP
+  split
+  · rename_i hpc
+    refine ⟨rfl, rfl, hcode, by simp, fun _ => hpc, by simp, by simp, by simp, ?_⟩
+    intro m hm; exfalso
+    simp only [Option.some.injEq] at hm; split at hm <;> simp at hm
+  · exact ⟨rfl, rfl, hcode, by simp, by simp, by simp, by simp, by simp, fun m hm => .inl hm⟩
+
 theorem expiredIn_of_not_contains (pre : List Ev) (h : pre.contains .create = false) : expiredIn pre = false := by
   simp [expiredIn, dropWhile_nil_of_not_contains pre h]
 
@@ -373,14 +384,18 @@ theorem vinv_step {p : Params} {pre : List Ev} {c : Config} (e : Ev) (h : VInv p
       simp only
       have hv := h.th i t hti
       have vs : VStep p c.st t (tstep .repaired p c.st i t).1 (tstep .repaired p c.st i t).2 := by
-        by_cases hs : t.spell = 0
+        by_cases hs : t.isMain = true
         · have htm : tstep .repaired p c.st i t = tstepMain .repaired p c.st i t := by simp [tstep, hs]
           rw [htm]
           exact tstep_vstep (p := p) (st := c.st) (i := i) (t := t) h.code hi.g.pres
             (fun hh => (hv.chk hh).1) (fun hh => (hv.dec hh).1) hv.rev
-        · have htm : tstep .repaired p c.st i t = tstepO .repaired c.st t := by simp [tstep, hs]
-          rw [htm]
-          exact tstepO_vstep h.code (hi.o i t hti hs)
+        · by_cases hpl : t.poll = true
+          · have htm : tstep .repaired p c.st i t = tstepP c.st t := by simp [tstep, hs, hpl]
+            rw [htm]
+            exact tstepP_vstep h.code (hi.o i t hti hs)
+          · have htm : tstep .repaired p c.st i t = tstepO .repaired c.st t := by simp [tstep, hs, hpl]
+            rw [htm]
+            exact tstepO_vstep h.code (hi.o i t hti hs)
       have hlt := getElem?_lt hti
       refine ⟨?_, ?_, vs.code, ?_⟩
       · rw [contains_append_th, vs.created]; exact h.created
